@@ -293,6 +293,51 @@ MUTANTS = [
      "            self.__dict__['_dp'] = (self._data_profile[1]\n"
      "                                    / self.normalization_value)\n"
      "        return self.__dict__['_dp']\n"),
+    ('C13', 'cache_keyed_by_x_only', 'psf/gridded_models.py',
+     "        xypos = tuple(self.grid_xypos[grid_idx])\n",
+     "        xypos = (self.grid_xypos[grid_idx][0],)\n"),
+    ('C13', 'weights_order_swapped', 'psf/gridded_models.py',
+     "        return np.array([(x1 - xi) * (y1 - yi), (xi - x0) * (y1 - yi),\n"
+     "                         (x1 - xi) * (yi - y0), (xi - x0) * (yi - y0)]) / norm",
+     "        return np.array([(x1 - xi) * (y1 - yi), (x1 - xi) * (yi - y0),\n"
+     "                         (xi - x0) * (y1 - yi), (xi - x0) * (yi - y0)]) / norm"),
+    ('C13', 'no_clip_outside_grid', 'psf/gridded_models.py',
+     "        xi = np.clip(xi, x0, x1)\n        yi = np.clip(yi, y0, y1)\n",
+     ""),
+    ('C13', 'searchsorted_right', 'psf/gridded_models.py',
+     "        xidx = np.searchsorted(self._xgrid, x) - 1\n",
+     "        xidx = np.searchsorted(self._xgrid, x, side='right')\n"),
+    ('C13', 'cache_remembers_last_cell_values', 'psf/gridded_models.py',
+     "        grid_idx, grid_xy = self._find_bounding_points(x_0, y_0)\n",
+     "        if getattr(self, '_last_cell', None) is None:\n"
+     "            self._last_cell = self._find_bounding_points(x_0, y_0)\n"
+     "        grid_idx, grid_xy = self._last_cell\n"),
+    ('C13', 'image_oversampling_axes_swapped', 'psf/image_models.py',
+     "        xi = self.oversampling[1] * (np.asarray(x, dtype=float) - x_0)\n"
+     "        yi = self.oversampling[0] * (np.asarray(y, dtype=float) - y_0)\n"
+     "        xi += self._origin[0]",
+     "        xi = self.oversampling[0] * (np.asarray(x, dtype=float) - x_0)\n"
+     "        yi = self.oversampling[1] * (np.asarray(y, dtype=float) - y_0)\n"
+     "        xi += self._origin[0]"),
+    ('C13', 'image_fill_bound_off_by_one', 'psf/image_models.py',
+     "            invalid = (xi < 0) | (xi > nx - 1) | (yi < 0) | (yi > ny - 1)\n"
+     "            evaluated_model[invalid] = self.fill_value\n"
+     "        return evaluated_model\n\n\n@deprecated",
+     "            invalid = (xi < 0) | (xi > nx) | (yi < 0) | (yi > ny)\n"
+     "            evaluated_model[invalid] = self.fill_value\n"
+     "        return evaluated_model\n\n\n@deprecated"),
+    ('C13', 'image_interpolator_cached_with_flux', 'psf/image_models.py',
+     "        evaluated_model = flux * self.interpolator(xi, yi, grid=False)\n\n"
+     "        if self.fill_value is not None:\n"
+     "            # set pixels that are outside the input pixel grid to the\n"
+     "            # fill_value to avoid extrapolation; these bounds match the\n"
+     "            # RegularGridInterpolator bounds\n"
+     "            ny, nx = self.data.shape\n",
+     "        if '_flux0' not in self.__dict__:\n"
+     "            self.__dict__['_flux0'] = flux\n"
+     "        evaluated_model = self.__dict__['_flux0'] * self.interpolator(xi, yi, grid=False)\n\n"
+     "        if self.fill_value is not None:\n"
+     "            ny, nx = self.data.shape\n"),
 ]
 
 
